@@ -284,6 +284,106 @@ def exact_statements(tier, rng):
     return out
 
 
+def temporaries_cases(tier, k0):
+    """expressions that consume, in place, a value whose only owner is an operand-stack temporary:
+    index / field / size / cast / operator applied directly to the result of a thread call (hash
+    array, nested array, constant array, string, vector, listener built in the callee, which ended at
+    once or after a wait), to `a::b` arrays built in the expression and to concatenation results;
+    the elements cover every heap-owning kind; each program checks the value it read (`@!`)."""
+    def chk(expr, expect, w):
+        return "local.x = %s\\nif (local.x != %s) {\\nprintln (\"@! %s read as \" + local.x)\\n}" % (
+            expr.replace("%w", str(w)), expect, expr.replace("%w", str(w)).replace('\"', "'"))
+    progs = []
+    for w in (0, 1):
+        for call in ("waitthread mkarr %w", "local waitthread mkarr %w", "waitexec prog::mkarr %w"):
+            progs += [
+                chk("(%s)[1]" % call, '\"onetwo\"', w),
+                chk("(%s)[2]" % call, "( 1 2 3 )", w),
+                chk("(%s)[2][1]" % call, "2.0", w),
+                chk("(%s)[3]" % call, "level", w),
+                chk("(%s)[4]" % call, "5", w),
+                chk("(%s)[\"k\"][2]" % call, '\"deeper\"', w),
+                chk("(%s)[\"k\"][3][2]" % call, "6.0", w),
+                chk("(%s)[\"k\"][1]" % call, "7", w),
+                chk("(%s)[5][1]" % call, '\"c1\"', w),
+                chk("(%s)[5][2]" % call, "( 7 8 9 )", w),
+                chk("(%s)[5][4][2]" % call, '\"n2\"', w),
+                chk("(%s)[5][4][2][1]" % call, '\"2\"[0]', w),
+                chk("(%s)[6]" % call, '\"x\"[0]', w),
+                chk("(%s)[7][1][1]" % call, '\"inner\"', w),
+                chk("(%s)[1][3]" % call, '\"t\"[0]', w),
+                chk("(%s).size" % call, "8", w),
+                chk("(%s)[\"k\"].size" % call, "3", w),
+                chk("(%s)[1].size" % call, "6", w),
+                chk("(%s)[9]" % call, "NIL", w),
+                chk("(%s)[\"nokey\"][1]" % call, "NIL", w),
+                chk("(%s)[1] + (%s)[\"k\"][2]" % (call, call), '\"onetwodeeper\"', w),
+                chk("((%s)[2] + (%s)[\"k\"][3])[0]" % (call, call), "5.0", w),
+                chk("(%s)[3].classname" % call, "level.classname", w),
+                chk("int ((%s)[4])" % call, "5", w),
+                chk("string ((%s)[1])" % call, '\"onetwo\"', w),
+                chk("vector_length ((%s)[2])" % call, "vector_length ( 1 2 3 )", w),
+                chk("typeof ((%s)[1])" % call, '\"string\"', w),
+                "(%s)[3] notify \"x\"\\n(%s)[1] notify \"x\"\\n(%s)[5] notify \"x\"" % ((call.replace("%w", str(w)),) * 3),
+                "(%s)[3].tmp = (%s)[1]\\nif (level.tmp != \"onetwo\") {\\nprintln \"@! field store from a temporary\"\\n}" % ((call.replace("%w", str(w)),) * 2),
+                "for (local.i = 0; local.i < 20; local.i++) {\\nlocal.x = (%s)[1] + (%s)[\"k\"][2]\\n}\\nif (local.x != \"onetwodeeper\") {\\nprintln \"@! loop\"\\n}" % ((call.replace("%w", "0"),) * 2),
+            ]
+        progs += [
+            chk("(waitthread mkone %w)[1]", '\"only1\"', w),
+            chk("(waitthread mkone %w)[1][0]", '\"o\"[0]', w),
+            chk("(waitthread mkcarr %w)[1]", '\"onetwo\"', w),
+            chk("(waitthread mkcarr %w)[2]", "( 1 2 3 )", w),
+            chk("(waitthread mkcarr %w)[2][2]", "3.0", w),
+            chk("(waitthread mkcarr %w)[3]", "level", w),
+            chk("(waitthread mkcarr %w)[4][1]", '\"n2\"', w),
+            chk("(waitthread mkcarr %w)[4][2][0]", "4.0", w),
+            chk("(waitthread mkcarr %w)[5]", "5", w),
+            chk("(waitthread mkcarr %w).size", "5", w),
+            chk("(waitthread mkcarr %w)[6]", "NIL", w),
+            chk("(waitthread mkstr %w)[1]", '\"b\"[0]', w),
+            chk("(waitthread mkstr %w).size", "4", w),
+            chk("(waitthread mkstr %w) + (waitthread mkstr %w)", '\"abc1abc1\"', w),
+            chk("int (waitthread mkstr %w)", "0", w),
+            chk("(waitthread mkvec %w)[2]", "3.0", w),
+            chk("(waitthread mkvec %w) + (waitthread mkvec %w)", "( 2 4 6 )", w),
+            chk("vector_length (waitthread mkvec %w)", "vector_length ( 1 2 3 )", w),
+            chk("(waitthread mklsn %w).foo", '\"f1\"', w),
+            chk("(waitthread mklsn %w).foo[0]", '\"f\"[0]', w),
+            chk("(waitthread mklsn %w).foo.size", "2", w),
+            chk("(waitthread mklsn %w).classname", '\"SimpleEntity\"', w),
+            "(waitthread mklsn %d).bar = (waitthread mkarr %d)[1]\\n(waitthread mklsn %d) remove\\n(waitthread mkarr %d) notify \"x\"" % (w, w, w, w),
+        ]
+    progs += [
+        # arrays and strings built inside the expression
+        chk("((\"a\" + 1)::( 1 2 3 )::level)[1]", '\"a1\"', 0),
+        chk("((\"a\" + 1)::( 1 2 3 )::level)[2][1]", "2.0", 0),
+        chk("((\"a\" + 1)::( 1 2 3 )::level)[3]", "level", 0),
+        chk("((\"a\" + 1)::((\"b\" + 2)::( 4 5 6 )))[2][1]", '\"b2\"', 0),
+        chk("((\"a\" + 1)::((\"b\" + 2)::( 4 5 6 )))[2][2][2]", "6.0", 0),
+        chk("((\"a\" + 1)::( 1 2 3 )).size", "2", 0),
+        chk("((\"ab\" + 1) + \"cd\")[3]", '\"c\"[0]', 0),
+        chk("((\"ab\" + 1) + \"cd\").size", "5", 0),
+        chk("(( 1 2 3 ) + ( 1 1 1 ))[1]", "3.0", 0),
+        chk("((\"1 2 \" + 3) + \"\")[0]", '\"1\"[0]', 0),
+        chk("vector_length (( 3 0 0 ) + ( 0 4 0 ))", "5.0", 0),
+        chk("(local::level::game)[2]", "level", 0),
+        chk("(local::level::game)[2].classname", "level.classname", 0),
+        chk("(1::(\"s\" + 1))[2][0]", '\"s\"[0]', 0),
+        chk("((local CreateListener)::level)[2]", "level", 0),
+        chk("(spawn SimpleEntity targetname (\"tt\" + 1)).targetname", '\"tt1\"', 0),
+        chk("(spawn SimpleEntity origin \"1 2 3\").origin[1]", "2.0", 0),
+        "for (local.i = 0; local.i < 20; local.i++) {\\nlocal.x = ((\"a\" + local.i)::( 1 2 3 )::((\"b\" + local.i)::5))[3][1]\\n}\\nif (local.x != \"b19\") {\\nprintln (\"@! loop read \" + local.x)\\n}",
+    ]
+    cases = []
+    k = k0
+    tail = ["P i1", "A ( b div i1 i0 )"]
+    for i in range(0, len(progs), 4):
+        for h in ("warn=1 dbg=1", "warn=0 dbg=0"):
+            cases.append(Case("x%d" % k, h, ["R " + p for p in progs[i:i + 4]] + tail, "raw-temporaries"))
+            k += 1
+    return cases
+
+
 KILL_CMDS = ["killd", "killr", "killi", "killdv", "killrv", "killiv"]
 HOWS = ["delete", "remove", "immediateremove"]
 
@@ -657,6 +757,9 @@ def build_cases(tier, seed):
         for i in range(0, len(lst), 12):
             cases.append(Case("x%d" % k, "warn=1 dbg=1" if (i // 12) % 3 else "warn=0 dbg=0", lst[i:i + 12], o))
             k += 1
+    tc = temporaries_cases(tier, k)
+    cases += tc
+    k += len(tc)
     dc = deleted_by_callee_cases(tier, k)
     cases += dc
     k += len(dc)
